@@ -14,6 +14,8 @@ import (
 	"strings"
 
 	sdk "github.com/cosmos/cosmos-sdk/types"
+	"github.com/cosmos/cosmos-sdk/x/params"
+	paramproposal "github.com/cosmos/cosmos-sdk/x/params/types/proposal"
 	abci "github.com/tendermint/tendermint/abci/types"
 
 	vs "github.com/ovrclk/akash/verifsupport"
@@ -28,6 +30,13 @@ type vStep struct {
 	Code    uint32            `json:"code"`
 	Log     string            `json:"log,omitempty"`
 	BadSign int               `json:"bad_sign,omitempty"`
+	// Gov: not a transaction but a parameter change decided by the network
+	// ("subspace/key=json value"), applied through the params proposal
+	// handler between two transactions.
+	Gov string `json:"gov,omitempty"`
+	// Restart: the node is restarted (new application object over the same
+	// database) before this step.
+	Restart bool `json:"restart,omitempty"`
 }
 
 type vTxObs struct {
@@ -206,6 +215,41 @@ func (h *vHist) doTx(note string, gap int, signer, claim *vActor, msgs ...sdk.Ms
 	return o
 }
 
+// Gov applies a parameter change the way an accepted governance proposal
+// does (x/params proposal handler on the deliver state), gap blocks after the
+// previous step, and records it for replay.
+func (h *vHist) Gov(gap int, subspace, key, value string) error {
+	h.c.advance(gap)
+	h.steps = append(h.steps, vStep{Gap: gap, Note: "gov", Gov: subspace + "/" + key + "=" + value, Height: h.c.height})
+	prop := paramproposal.NewParameterChangeProposal("verif", "verif", []paramproposal.ParamChange{paramproposal.NewParamChange(subspace, key, value)})
+	err := params.NewParamChangeProposalHandler(h.c.app.keeper.params)(h.c.ctx(), prop)
+	h.last = h.c.snapshot()
+	if err == nil {
+		for _, m := range h.mons {
+			if g, ok := m.(vGovMonitor); ok {
+				g.OnGov(h, subspace, key, value)
+			}
+		}
+	}
+	return err
+}
+
+// vGovMonitor is implemented by monitors whose oracle depends on network
+// parameters.
+type vGovMonitor interface {
+	OnGov(h *vHist, subspace, key, value string)
+}
+
+// Restart commits the open block and restarts the node.
+func (h *vHist) Restart() {
+	if h.c.open {
+		h.c.endBlock()
+	}
+	h.c.restart()
+	h.steps = append(h.steps, vStep{Note: "restart", Restart: true, Height: h.c.height})
+	h.last = h.c.snapshot()
+}
+
 func vTrunc(s string, n int) string {
 	if len(s) > n {
 		return s[:n] + "…"
@@ -278,6 +322,20 @@ func vReplayHist(res *vs.Result, c vHistCase, mons []vMonitor) {
 	rng := vs.NewRand(0, 0)
 	vRunHist(res, "replay:"+c.Origin, c.ActorSeed, c.Profile, rng, mons, func(h *vHist) {
 		for _, st := range c.Steps {
+			if st.Restart {
+				h.Restart()
+				continue
+			}
+			if st.Gov != "" {
+				i := strings.Index(st.Gov, "=")
+				j := strings.Index(st.Gov, "/")
+				if i < 0 || j < 0 || j > i {
+					res.Inconclusive("replay: malformed gov step " + st.Gov)
+					return
+				}
+				_ = h.Gov(st.Gap, st.Gov[:j], st.Gov[j+1:i], st.Gov[i+1:])
+				continue
+			}
 			var msgs []sdk.Msg
 			for _, raw := range st.Msgs {
 				var m sdk.Msg
